@@ -11,8 +11,8 @@ Require Import KV.Model.Prelude KV.Model.Condensed KV.Model.Active KV.Model.Dend
   KV.Proofs.SortProofs KV.Proofs.OrderOnly KV.Proofs.RelabelWF KV.Proofs.PrimThreshold KV.Proofs.MstPrim KV.Proofs.MstCuts
   KV.Proofs.LWInvariant KV.Model.Chain KV.Proofs.MstWF KV.Proofs.MstTotal KV.Proofs.ChainIter KV.Proofs.ChainInstances
   KV.Model.Generic KV.Model.Primitive KV.Proofs.PrimitiveTotal KV.Proofs.GenericInv KV.Proofs.GenericInstances
-  KV.Proofs.CriteriaRun KV.Proofs.SingleCuts.
-From Coq Require Import Relations.
+  KV.Proofs.CriteriaRun KV.Proofs.SingleCuts KV.Proofs.SpanningTrees KV.Proofs.MstWeights KV.Proofs.MstWeightsRun.
+From Coq Require Import Relations Permutation.
 
 Set Implicit Arguments.
 
@@ -318,6 +318,86 @@ Proof.
   - intros x y Hx Hy. rewrite Hd. unfold map_dend. cbn [d_steps]. rewrite !labi_map, Hobs.
     rewrite (Hpart x y ltac:(lia) ltac:(lia)). rewrite HM01. cbn [m_obs].
     apply (conn_map M1 (seq 0 (m_obs M1)) (exist _ t Ht) x y).
+Qed.
+
+(* ---- C04, second sentence on the full carrier: the returned heights are the
+   edge weights of a minimum spanning tree, all five entry points ---- *)
+Lemma count_le_g (t : sub) (l : list sub) :
+  count_le (k_ltb KF) (g t) (map g l) = count_le (k_ltb KS) t l.
+Proof. rewrite count_le_map. reflexivity. Qed.
+
+Lemma wt_map (M1 : cmat sub) (E : list (nat * nat)) :
+  map (wt (dcell KF {| m_data := map g (m_data M1); m_obs := m_obs M1 |})) E = map g (map (wt (dcell KS M1)) E).
+Proof. rewrite map_map. apply map_ext. intros e. unfold wt. apply dcell_map. Qed.
+
+Lemma mst_weights_map (M1 : cmat sub) (n0 : nat) (hs : list sub) :
+  (forall t, ok t = false -> forall v, f_ltb F t v = false) ->
+  mst_weights (k_ltb KS) (dcell KS M1) n0 hs ->
+  mst_weights (k_ltb KF) (dcell KF {| m_data := map g (m_data M1); m_obs := m_obs M1 |}) n0 (map g hs).
+Proof.
+  intros Hnan (E & Hsp & Hperm & Hmin). exists E. split; [exact Hsp|]. split.
+  - rewrite wt_map. apply Permutation_map. exact Hperm.
+  - intros E' HE' t. rewrite wt_map. destruct (ok t) eqn:Ht.
+    + pose proof (count_le_g (exist _ t Ht) (map (wt (dcell KS M1)) E')) as C1.
+      pose proof (count_le_g (exist _ t Ht) hs) as C2.
+      change (g (exist _ t Ht)) with t in C1, C2. rewrite C1, C2. exact (Hmin E' HE' (exist _ t Ht)).
+    + assert (Hall : forall l : list T, count_le (k_ltb KF) t l = length l).
+      { intros l. unfold count_le. induction l as [|v l IH]; [reflexivity|]. cbn [filter].
+        cbn [kops_of k_ltb]. rewrite (Hnan t Ht v). cbn [negb length]. f_equal. exact IH. }
+      rewrite !Hall, !map_length. rewrite (Permutation_length Hperm), map_length.
+      destruct Hsp as [H1 _], HE' as [H2 _]. lia.
+Qed.
+
+Theorem mst_weights_carrier (p : profile) (a : algo) s d (m : list T) (n : N) s' d' m' M0 :
+  run_with F p a Single s d m n = Ok (s', d', m') ->
+  prologue p m n = Ok M0 -> 1 <= m_obs M0 ->
+  Forall (fun v => ok v = true) m ->
+  Forall (fun v => f_ltb F v (f_inf F) = true) m ->
+  (forall t, ok t = false -> forall v, f_ltb F t v = false) ->
+  mst_weights (k_ltb KF) (dcell KF M0) (m_obs M0) (heights d').
+Proof.
+  intros Hrun HM0 Hn1 Hok Hfin Hnan.
+  destruct (lift_list Hok) as (m1 & Hm1).
+  pose proof (@order_only sub T g (fun _ => True) FS F p
+                (fun x y _ _ => eq_refl) (fun x y _ _ => eq_refl) (conj I eq_refl) (conj I eq_refl)
+                a Single m1 n (st_new sub) (d_new sub 0) s d (or_introl eq_refl)
+                ltac:(apply Forall_forall; intros; exact I)) as Hoo.
+  rewrite Hm1, Hrun in Hoo. cbn [out_of] in Hoo.
+  destruct (run_with FS p a Single (st_new sub) (d_new sub 0) m1 n) as [[[s1 d1] mm1]| |] eqn:Hrun1;
+    cbn [out_of map_out] in Hoo; try discriminate.
+  injection Hoo as Hd Hm.
+  assert (HM1 : exists M1, prologue p m1 n = Ok M1).
+  { destruct a; cbn [run_with linkage_with] in Hrun1.
+    - exact (mst_prologue _ _ _ _ _ _ Hrun1).
+    - exact (mst_prologue _ _ _ _ _ _ Hrun1).
+    - exact (run_prologue_single FS p (st_new sub) (d_new sub 0) m1 n (or_introl eq_refl) Hrun1).
+    - exact (run_prologue_single FS p (st_new sub) (d_new sub 0) m1 n (or_intror (or_introl eq_refl)) Hrun1).
+    - exact (run_prologue_single FS p (st_new sub) (d_new sub 0) m1 n (or_intror (or_intror eq_refl)) Hrun1). }
+  destruct HM1 as (M1 & HM1).
+  destruct (prologue_wf _ _ _ HM1) as [Hwf1 Hdata1].
+  assert (HM01 : M0 = {| m_data := map g (m_data M1); m_obs := m_obs M1 |}).
+  { unfold prologue in HM0, HM1. rewrite <- Hm1, map_length in HM0.
+    destruct (shape_check p n (N.of_nat (length m1))) as [q| |]; cbn [bind] in *; try discriminate.
+    destruct (obs_to_nat q) as [q'| |]; cbn [bind] in *; try discriminate.
+    inversion HM0; inversion HM1; subst. cbn [m_data m_obs]. reflexivity. }
+  assert (Hobs : m_obs M0 = m_obs M1) by (rewrite HM01; reflexivity).
+  assert (Hfin1 : Forall (fun v => f_ltb FS v (f_inf FS) = true) m1).
+  { rewrite Forall_forall in Hfin |- *. intros v Hv. apply (Hfin (g v)). rewrite <- Hm1. apply in_map. exact Hv. }
+  assert (Hinf1 : forall x y, x <> y -> x < m_obs M1 -> y < m_obs M1 ->
+            k_ltb KS (dcell KS M1 x y) (k_inf KS) = true).
+  { intros x y Hxy Hx Hy. destruct (@wcell_some sub p M1 x y Hwf1 Hxy Hx Hy) as (v & Hv).
+    unfold dcell. rewrite Hv. rewrite Forall_forall in Hfin1. apply Hfin1.
+    rewrite <- Hdata1. unfold wcell, mcell in Hv. eapply nth_error_In. exact Hv. }
+  assert (HW : mst_weights (k_ltb KS) (dcell KS M1) (m_obs M1) (heights d1)).
+  { destruct a; cbn [run_with linkage_with] in Hrun1.
+    - exact (@mst_weights_mst sub KS p KS_irrefl KS_trans KS_negtrans _ _ _ _ _ _ _ M1 Hrun1 HM1 ltac:(lia) Hinf1).
+    - exact (@mst_weights_mst sub KS p KS_irrefl KS_trans KS_negtrans _ _ _ _ _ _ _ M1 Hrun1 HM1 ltac:(lia) Hinf1).
+    - exact (@nnchain_weights_mst sub FS p FS_irrefl FS_trans FS_negtrans _ _ _ _ _ _ _ M1 Hrun1 HM1 ltac:(lia)).
+    - exact (@generic_weights_mst sub FS p FS_irrefl FS_trans FS_negtrans FS_eqb_refl KS_eqb_nlt _ _ _ _ _ _ _ M1 Hfin1 Hrun1 HM1 ltac:(lia)).
+    - exact (@primitive_weights_mst sub FS p FS_irrefl FS_trans FS_negtrans _ _ _ _ _ _ _ M1 Hrun1 HM1 ltac:(lia)). }
+  rewrite Hd, Hobs, HM01. unfold heights, map_dend. cbn [d_steps]. rewrite map_map.
+  change (fun x : step sub => s_dis (map_step g x)) with (fun x : step sub => g (s_dis x)).
+  rewrite <- (map_map (@s_dis sub) g (d_steps d1)). apply mst_weights_map; [exact Hnan|exact HW].
 Qed.
 
 End Sub.
